@@ -137,6 +137,15 @@ def check_study(study: Any, dirs: list[str], case: Any, kind: str, where: str) -
         me = next(t for t in comp if t.number == bt.number)
         if study.best_value != bt.value or study.best_params != me.params or bt.values != me.values:
             raise Violation("best_value-or-params-disagree", f"{kind} {where}: {study.best_value} {bt.value}", case)
+        # Study.best_trials is documented for every study ("trials located at the Pareto front:
+        # no trial dominates them"): with one objective that is every eligible trial tied at the
+        # optimum
+        constrained = any("constraints" in t.system_attrs for t in trials)
+        pool = [t for t in comp if _feasible(t)] if constrained else comp
+        exp1 = sorted(t.number for t in pool if not any(_better(o.value, t.value, d) for o in pool))
+        got1 = sorted(t.number for t in study.best_trials)
+        if got1 != exp1:
+            raise Violation("best_trials-not-the-pareto-front", f"{kind} {where} direction={d} (single objective) constrained={constrained}: got {got1}, all trials tied at the optimum {exp1}; trials {desc}", case)
     else:
         got = sorted(t.number for t in study.best_trials)
         constrained = any("constraints" in t.system_attrs for t in trials)
